@@ -353,6 +353,19 @@ RemoveMatch(s, ser, fl, text) ==
                     \o EavesCopies(W, s, call, NoSlot)
           /\ UNCHANGED <<cfg, cst, dying, uid, uname, everNames, queue, pend, mon>>
 
+\* KNOWN DEFECT (deviation, only enabled by BusTrace while listed open in known-findings.json):
+\* RemoveMatch of a rule the caller does not hold stages the success reply before it looks for the rule and
+\* then fails: the caller gets a method return AND the MatchRuleNotFound error.
+Dev_RemoveMatchAckThenError(s, ser, fl, text) ==
+  LET call == DriverCall(s, ser, BUS, S_RemoveMatch, SigS, <<AStr(text)>>, fl)
+      p == ParseRule(text) IN
+  /\ CanTalk(s) /\ DriverGate(s, call) /\ p.ok /\ LastEqual(rules[s], p.rule) = 0 /\ ~NoReplyFlag(call)
+  /\ out' = Capture(Now, call, s, NoSlot)
+            \o FromBus(Now, s, Reply(uname[s], ser, <<>>, <<>>, "exact"))
+            \o FromBus(Now, s, ErrReply(uname[s], ser, E_MatchRuleNotFound))
+            \o EavesCopies(Now, s, call, NoSlot)
+  /\ UNCHANGED <<cfg, cst, dying, uid, uname, everNames, queue, rules, pend, mon>>
+
 \* ------------------------------------------------------------------ disconnect processing
 \* bus_connection_disconnected: match rules go first, then every name (each in its own transaction, unique name
 \* last), pending replies.  `order` is the order in which the well-known names are given up.
@@ -460,12 +473,12 @@ Send(s, m0) ==
   /\ m.dst # BUS
   /\ IF cst[s] = "monitor" THEN Kill(s) /\ out' = <<>>                       \* MonitorSpeaks
      ELSE IF m.dst = <<>> /\ m.ty # 4 THEN
-          \* DestinationlessNonSignal: left to libdbus inside the daemon: Peer calls are answered, other calls
-          \* get UnknownMethod, replies are dropped; no transaction, no sender stamp, invisible to monitors
+          \* a non-signal without destination is for the bus itself as a peer: Peer.Ping is answered, any other
+          \* call gets UnknownMethod, replies are dropped.  (What the code really does: Dev_LocalReplyUnstamped.)
           /\ out' = IF m.ty # 1 \/ (m.fl % 2) = 1 THEN <<>>
                     ELSE IF m.ifc = S_org_freedesktop_DBus_Peer /\ m.mem = S_Ping /\ m.sig = <<>>
-                         THEN <<To(s, Msg(2, <<>>, <<>>, 0, m.ser, <<>>, <<>>, <<>>, <<>>, <<>>, <<>>, 1, 0, "local"))>>
-                    ELSE <<To(s, Msg(3, <<>>, <<>>, 0, m.ser, <<>>, <<>>, <<>>, E_UnknownMethod, SigS, <<>>, 1, 0, "local"))>>
+                         THEN <<To(s, Reply(DstOf(s), m.ser, <<>>, <<>>, "exact"))>>
+                    ELSE <<To(s, ErrReply(DstOf(s), m.ser, E_UnknownMethod))>>
           /\ UNCHANGED <<cfg, cst, dying, uid, uname, everNames, queue, rules, pend, mon>>
      ELSE IF cst[s] = "incomplete" THEN Kill(s) /\ out' = Capture(Now, m, s, NoSlot)  \* not registered yet
      ELSE IF m.dst # <<>> /\ adr = NoSlot THEN
@@ -482,6 +495,17 @@ Send(s, m0) ==
                     \o (IF g.ok THEN <<To(adr, m)>> \o RuleCopies(Now, s, m, adr)
                         ELSE FromBus(Now, s, ErrReply(uname[s], m.ser, g.err)))
           /\ UNCHANGED <<cfg, cst, dying, uid, uname, everNames, queue, rules, mon>>
+
+\* KNOWN DEFECT (deviation): a non-signal without destination is handed back to libdbus inside the daemon, which
+\* answers it without any transaction: the reply carries no SENDER at all, its DESTINATION is whatever SENDER
+\* value the client itself put in the header (none if it put none), and monitors never see call or reply.
+Dev_LocalReplyUnstamped(s, m0, fsnd) ==
+  /\ cst[s] \in {"incomplete", "active"} /\ ~dying[s]
+  /\ m0.dst = <<>> /\ m0.ty = 1 /\ (m0.fl % 2) = 0
+  /\ out' = IF m0.ifc = S_org_freedesktop_DBus_Peer /\ m0.mem = S_Ping /\ m0.sig = <<>>
+            THEN <<To(s, Msg(2, <<>>, fsnd, 0, m0.ser, <<>>, <<>>, <<>>, <<>>, <<>>, <<>>, 1, 0, "exact"))>>
+            ELSE <<To(s, Msg(3, <<>>, fsnd, 0, m0.ser, <<>>, <<>>, <<>>, E_UnknownMethod, SigS, <<>>, 1, 0, "errtext"))>>
+  /\ UNCHANGED <<cfg, cst, dying, uid, uname, everNames, queue, rules, pend, mon>>
 
 \* anything else addressed to the driver: replies and signals are ignored, unknown methods refused
 DriverOther(s, m0) ==
